@@ -172,3 +172,89 @@ func (e *Explorer) explore(prefix []int, labels []string, used int, body func(*C
 		}
 	}
 }
+
+// ExploreParallel is Explore with the level-1 subtrees of the default
+// execution distributed over `workers` goroutines. body and visit must be safe
+// for concurrent use (fresh state per execution). Stats are merged.
+func (e *Explorer) ExploreParallel(workers int, body func(*Ctx) string, visit func(Result)) {
+	if workers < 2 {
+		e.Explore(body, visit)
+		return
+	}
+	root := RunOne(nil, nil, e.Horizon, body)
+	e.Stats.Executions++
+	e.Stats.ChoicePoints += len(root.Choices)
+	e.Stats.MaxDepth = len(root.Choices)
+	if root.Truncated {
+		e.Stats.Truncated++
+	}
+	if e.Replay > 0 {
+		y := RunOne(root.Choices, nil, e.Horizon, body)
+		e.Stats.Replayed++
+		if y.Obs != root.Obs || len(y.Choices) != len(root.Choices) {
+			if e.OnDiverge != nil {
+				e.OnDiverge(root.Choices, root.Obs, y.Obs)
+			} else {
+				panic(Diverged{"second run of the same choices observed something else"})
+			}
+		}
+	}
+	visit(root)
+	lbl := make([]string, len(root.Points))
+	for i, p := range root.Points {
+		lbl[i] = p.Label
+	}
+	type branch struct {
+		prefix []int
+		labels []string
+		cost   int
+	}
+	var branches []branch
+	for i, p := range root.Points {
+		cost := 0
+		if !p.Free {
+			cost = 1
+		}
+		if cost > e.Bound {
+			continue
+		}
+		for alt := 1; alt < p.N; alt++ {
+			branches = append(branches, branch{append(append([]int{}, root.Choices[:i]...), alt), lbl[:i+1], cost})
+		}
+	}
+	type res struct{ st Stats }
+	out := make(chan Stats, workers)
+	next := make(chan branch)
+	perWorkerCap := 0
+	if e.MaxExecs > 0 {
+		perWorkerCap = e.MaxExecs / workers
+		if perWorkerCap < 1 {
+			perWorkerCap = 1
+		}
+	}
+	for w := 0; w < workers; w++ {
+		go func() {
+			sub := &Explorer{Bound: e.Bound, Horizon: e.Horizon, MaxExecs: perWorkerCap, OnDiverge: e.OnDiverge}
+			for b := range next {
+				sub.explore(b.prefix, b.labels, b.cost, body, visit)
+			}
+			out <- sub.Stats
+		}()
+	}
+	for _, b := range branches {
+		next <- b
+	}
+	close(next)
+	for w := 0; w < workers; w++ {
+		st := <-out
+		e.Stats.Executions += st.Executions
+		e.Stats.ChoicePoints += st.ChoicePoints
+		e.Stats.Truncated += st.Truncated
+		if st.MaxDepth > e.Stats.MaxDepth {
+			e.Stats.MaxDepth = st.MaxDepth
+		}
+		if st.Capped {
+			e.Stats.Capped = true
+		}
+	}
+}
